@@ -130,6 +130,9 @@ pub enum Op {
 	Reorg { depth: u64, r: u64 },
 	/// shrink the pool capacity so that the next submissions evict
 	ShrinkCapacity { to: usize },
+	/// only the header of a new block on the head arrives (header-first propagation, sync): the
+	/// header chain is one ahead of the block chain, the pool must keep judging against the block chain
+	HeaderAhead { r: u64 },
 }
 
 pub struct PoolSim<'w> {
@@ -408,6 +411,23 @@ impl<'w> PoolSim<'w> {
 			Op::MineEmpty { .. } => {
 				self.mine(vec![], "empty")?;
 				"mined empty".into()
+			}
+			Op::HeaderAhead { .. } => {
+				let parent = self.head;
+				let dt = self.world.draw_dt();
+				match self.world.assemble(parent, &[], dt, None) {
+					Ok(b) => match self.world.add_block(parent, b.clone(), 0, vec![], "header-only".to_string()) {
+						Ok(_) => match self.chain.process_block_header(&b.header, self.world.opts) {
+							Ok(()) => {
+								self.probe("header_chain_ahead_of_block_chain");
+								"header only".into()
+							}
+							Err(e) => return Err(viol("header-refused-by-node", format!("step {}: node refused the header of a block the builder accepted: {:?}", self.step, e))),
+						},
+						Err(_) => "skipped".into(),
+					},
+					Err(_) => "skipped".into(),
+				}
 			}
 			Op::Reorg { depth, r } => {
 				let mut rng = SimRng::new(*r);
@@ -882,8 +902,10 @@ pub fn gen_ops(rng: &mut SimRng, thorough: bool) -> Vec<Op> {
 			Op::MinePool { r: rng.next_u64() }
 		} else if k < 82 {
 			Op::MineSubset { conflict: rng.chance(1, 2), r: rng.next_u64() }
-		} else if k < 88 {
+		} else if k < 86 {
 			Op::MineEmpty { r: rng.next_u64() }
+		} else if k < 89 {
+			Op::HeaderAhead { r: rng.next_u64() }
 		} else if k < 95 {
 			Op::Reorg { depth: rng.range(1, 3), r: rng.next_u64() }
 		} else {
@@ -935,8 +957,10 @@ pub fn gen_ops_c13(rng: &mut SimRng, thorough: bool) -> Vec<Op> {
 			Op::Submit { kind, stem: rng.chance(1, 4), r: rng.next_u64() }
 		} else if k < 72 {
 			Op::MinePool { r: rng.next_u64() }
-		} else if k < 84 {
+		} else if k < 80 {
 			Op::MineEmpty { r: rng.next_u64() }
+		} else if k < 88 {
+			Op::HeaderAhead { r: rng.next_u64() }
 		} else {
 			Op::Reorg { depth: rng.range(1, 3), r: rng.next_u64() }
 		};
